@@ -40,8 +40,23 @@ func c01Names(tier string) []string {
 	}
 	if tier != "thorough" {
 		quick := []string{"plain", "9lives", "with space", "kebab-case", "dot.ted", "a/b", "dq\"uote", "back`tick", "back\\slash", "éclair", "日本語x",
-			"type", "func", "range", "default", "string", "error", "nil", "len", "Validate", "Payload", "params", "o", "models", "errors", "runtime", "client", "ID", "Params", "Error", "Default", "Body"}
+			"type", "func", "range", "default", "string", "error", "nil", "len", "Validate", "Payload", "params", "o", "models", "errors", "runtime", "client", "ID", "Params", "Error", "Default", "Body",
+			// identifiers of the templates in another case than the templates write them
+			"timeout", "Timeout", "context", "Context", "HTTPClient", "httpClient"}
 		return quick
+	}
+	// thorough: the identifiers and package names the templates use, in lower / Title / UPPER case as well
+	ident := []string{"Validate", "MarshalJSON", "ContextValidate", "Payload", "Context", "HTTPClient", "timeout", "params", "res", "err", "data", "body", "result",
+		"models", "operations", "restapi", "runtime", "strfmt", "swag", "errors", "validate", "http", "fmt", "json", "time", "client", "context", "middleware", "Params", "Reader", "Writer", "Client", "Default", "Body", "Error"}
+	seen := map[string]bool{}
+	for _, n := range names {
+		seen[n] = true
+	}
+	for _, v := range c01CaseVariants(ident) {
+		if !seen[v] {
+			seen[v] = true
+			names = append(names, v)
+		}
 	}
 	return names
 }
@@ -203,11 +218,31 @@ func RunC01(tier, replay string) int {
 	} else {
 		// ---- (1) model universe: reuse the packed pipeline; dropped definitions are C01 violations
 		defs, _ := EnumerateDefs(k, depth, "D")
+		{
+			// the same universes C02 / C05 / C18 run on: a definition their pipelines drop (generation or
+			// compile failure) is C01's to report, so C01 has to generate every one of them
+			minStack := 2
+			if depth >= 2 {
+				minStack = 3
+			}
+			defs = append(defs, EnumerateStackDefs("K", minStack, 3)...)
+			defs = append(defs, DeepRefDefs("R")...)
+		}
 		if os.Getenv("VERIF_C01_ONLY") != "" {
 			defs = nil
 		}
 		for _, sp := range SpecialDefs() { // tuples, polymorphism, odd property names, allOf of maps
 			defs = append(defs, sp.Def)
+		}
+		defs = append(defs, c01EnumPairDefs()...)
+		for _, d := range c01NamePropDefs(c01Names(tier)) {
+			// like the carriers of (3): a name go-openapi/spec itself cannot re-serialise (a quote or backslash in a
+			// property name breaks OrderSchemaItems.MarshalJSON) is unloadable input, not a generator case
+			if err := validSpec(modelsDoc([]DefCase{d})); err != nil {
+				r.Count("property_names_invalid_as_spec(skipped)", 1)
+				continue
+			}
+			defs = append(defs, d)
 		}
 		ms := NewScratch("C01m")
 		run, err := BuildModels(ms, defs, 50)
@@ -263,6 +298,18 @@ func RunC01(tier, replay string) int {
 				cliOps[i].ID = fmt.Sprintf("q%04d", i)
 			}
 			addPacks(cliOps, "cli")
+		}
+		// ---- (9) one name in one parameter position at a time, packed
+		{
+			nops := c01NameOps(c01Names(tier))
+			for i := range nops {
+				nops[i].ID = fmt.Sprintf("n%04d", i)
+			}
+			if tier == "thorough" {
+				addPacks(nops, "server", "client", "cli")
+			} else {
+				addPacks(nops, "server", "client")
+			}
 		}
 		// ---- (3) names
 		nameTargets := []string{"server", "client"}
